@@ -6,6 +6,7 @@ import Driver.OpsFn
 import Driver.OpsC03
 import Driver.OpsSym
 import Driver.OpsBot
+import Driver.OpsText
 namespace Driver
 
 def handlers : List Handler := [
@@ -17,6 +18,7 @@ def handlers : List Handler := [
   handleSym,
   handleEval,
   handleBot,
+  handleText,
 ]
 
 def step (st : St) (line : String) : St × String :=
